@@ -1,3 +1,18 @@
 package tmpl
 
 func idErr(s string) (string, error) { return s, nil }
+
+func rowText(i int) string { return "row " + string(rune('a'+i%26)) + " & <" }
+
+var ErrExpr = errorString("expression failed")
+
+type errorString string
+
+func (e errorString) Error() string { return string(e) }
+
+func mayFail(s string, fail bool) (string, error) {
+	if fail {
+		return "", ErrExpr
+	}
+	return s, nil
+}
